@@ -200,6 +200,64 @@ def run_diff(tier="quick", seed=0):
     return res
 
 
+# ------------------------------------------------------------------------------------------ supporting static fact: static storage
+STATIC_RX = r"^\s*(?:\[\[[^\]]*\]\]\s*)?(?:inline\s+)?static\s+(?!inline\s+constexpr)(?:inline\s+)?(?!constexpr)(?!_)(?P<decl>[^;(){}]*?[\w>\]]\s+(?P<name>\w+)\s*(?:=|\{)[^;]*)"
+STATIC_OK = {
+    # (file, variable): why it cannot carry mutable shared state
+    ("spline/detail/bspline_impl.hpp", "Bum"): "const Eigen::Map onto a constexpr coefficient table (immutable)",
+    ("spline/detail/fit_impl.hpp", "M"): "const Eigen::Map onto a constexpr coefficient table (immutable)",
+    ("spline/detail/spline_impl.hpp", "kMappedBasisFunction"): "const Eigen::Map onto a constexpr coefficient table (immutable)",
+    ("detail/lie_group_sparse_impl.hpp", "d_exp_sparse_pattern"): "written only by its own static initialiser; never written by the sparse routines (C18 run_sparse, C19 frames)",
+    ("detail/lie_group_sparse_impl.hpp", "d2_exp_sparse_pattern"): "written only by its own static initialiser; never written by the sparse routines (C18 run_sparse, C19 frames)",
+    ("detail/lie_group_sparse_impl.hpp", "ad_sparse_pattern"): "written only by its own static initialiser; never written by the sparse routines (C18 run_sparse, C19 frames)",
+}
+
+
+def run_static_storage(tier="quick", seed=0):
+    """[supporting static fact, syntactic] Shared mutable state of const operations can only live in objects with static storage duration,
+    `mutable` members or `thread_local`s.  Every header of the library is scanned for such declarations (non-constexpr `static` variables
+    with an initialiser, `mutable`, `thread_local`); each one found must be on the reviewed list above.  This is what covers the code that
+    irsx cannot execute (fit_impl.hpp, reparameterize_impl.hpp, manifolds/vector.hpp, optim.hpp): a new static or mutable object there
+    is reported as an unreviewed source of shared state."""
+    import os
+    import re
+    res = Results(PROP)
+    tag = PROP + "/static-storage"
+    root = "/repo/include/smooth"
+    found = []
+    for dp, dn, fns in os.walk(root):
+        for fn in sorted(fns):
+            if not fn.endswith(".hpp"):
+                continue
+            rel = os.path.relpath(os.path.join(dp, fn), root)
+            txt = open(os.path.join(dp, fn)).read()
+            txt = re.sub(r"/\*.*?\*/", lambda m: "\n" * m.group(0).count("\n"), txt, flags=re.S)
+            for ln, line in enumerate(txt.split("\n"), 1):
+                code = line.split("//")[0]
+                m = re.match(STATIC_RX, code)
+                if m and "static_cast" not in m.group("decl").split("=")[0] and "(" not in m.group("decl").split("=")[0].split("{")[0]:
+                    found.append((rel, ln, "static", m.group("name"), code.strip()))
+                if re.search(r"\bmutable\b", code) and not re.search(r"\]\s*\([^)]*\)\s*mutable|\)\s*mutable\s*(->|\{|noexcept)", code):
+                    found.append((rel, ln, "mutable", "", code.strip()))
+                if re.search(r"\bthread_local\b", code):
+                    found.append((rel, ln, "thread_local", "", code.strip()))
+    res.functions.add("all headers under include/smooth (syntactic scan for static / mutable / thread_local storage)")
+    seen_ok = set()
+    for rel, ln, kind, name, code in found:
+        oid = "%s/%s:%s" % (tag, rel, name or kind)
+        why = STATIC_OK.get((rel, name)) if kind == "static" else None
+        if why:
+            if (rel, name) not in seen_ok:
+                res.add(oid, "proved", "struct", 0.0, "reviewed: " + why)
+                seen_ok.add((rel, name))
+        else:
+            res.add(oid + "@%d" % ln, "refuted", "struct", 0.0, "unreviewed %s storage: %s" % (kind, code[:160]),
+                    extra=dict(confirmed=False, replay=write_replay(oid, dict(obligation=oid, file=rel, line=ln, code=code,
+                               reason="an object with %s storage is a potential source of shared mutable state in const operations; it is not on the reviewed list" % kind))))
+    res.add(tag + "/scan", "proved" if found else "error", "struct", 0.0, "%d declarations with static / mutable / thread_local storage found in the headers" % len(found))
+    return res
+
+
 def run_groups(gname, tier="quick", seed=0):
     """const/static group members write neither their inputs nor any global (re-uses the frame contracts of C16)"""
     G = G_.BY_NAME[gname]
@@ -268,7 +326,7 @@ def run_sparse(tier="quick", seed=0):
 
 
 def tasks(tier, seed=0):
-    t = [("c18", "run_manifolds", (), dict(tier=tier, seed=seed, canary=True)), ("c18", "run_spline", (), dict(tier=tier, seed=seed)), ("c18", "run_bspline", (), dict(tier=tier, seed=seed)), ("c18", "run_diff", (), dict(tier=tier, seed=seed)),
+    t = [("c18", "run_manifolds", (), dict(tier=tier, seed=seed, canary=True)), ("c18", "run_spline", (), dict(tier=tier, seed=seed)), ("c18", "run_bspline", (), dict(tier=tier, seed=seed)), ("c18", "run_diff", (), dict(tier=tier, seed=seed)), ("c18", "run_static_storage", (), dict(tier=tier, seed=seed)),
          ("c18", "run_sparse", (), dict(tier=tier, seed=seed))]
     for g in (["SO3", "SE2", "SE3"] if tier == "quick" else ["SO2", "SO3", "SE2", "SE3", "C1", "Galilei", "SE_2_3", "B1"]):
         t.append(("c18", "run_groups", (g,), dict(tier=tier, seed=seed)))
